@@ -55,7 +55,7 @@ func c12Run(c *core.Ctx, idx int) {
 	var assign func(n *TNode, root bool, inCond bool)
 	assign = func(n *TNode, root, inCond bool) {
 		if !root && (n.T == "stack" || n.T == "cond") && r.Chance(2, 3) {
-			n.Alias = r.Range(1, 4)
+			n.Alias = r.Range(1, 6)
 			aliases++
 			if inCond && n.T == "stack" {
 				condExprAliases++
@@ -211,7 +211,7 @@ func c12Run(c *core.Ctx, idx int) {
 			return
 		}
 		// 7. Transfer into alias / pointer destinations
-		for form := 1; form <= 4; form++ {
+		for form := 1; form <= 6; form++ {
 			d := stackage.Basic()
 			var dst any
 			switch form {
@@ -222,8 +222,13 @@ func c12Run(c *core.Ctx, idx int) {
 				dst = &a
 			case 3:
 				dst = SStack(d)
-			default:
+			case 4:
 				a := SStack(d)
+				dst = &a
+			case 5:
+				dst = XStack(d)
+			default:
+				a := XStack(d)
 				dst = &a
 			}
 			ok := A.Transfer(dst)
@@ -330,10 +335,10 @@ func init() {
 		Cases: c12Tier,
 		Run:   c12Run,
 		Rule: "differential: a random tree description (depth <= 3, Conditions with Stack/Condition expressions, nil slots, presentation and index options) is instantiated twice - all native, and with two thirds of the nested Stacks/Conditions replaced by a random alias form " +
-			"{alias value, pointer to alias, alias with its own String method, pointer to that}. For the pair: String, Unmarshal (deep), IsEqual in both directions, Traverse on ALL paths of length <= 3 over [-1,4], per-node IsNesting/Len/Kind and Condition.Len/IsNesting/IsFIFO/String, " +
+			"{alias value, pointer to alias, alias with a String method that delegates to the native rendering, pointer to that, alias whose own String method returns unrelated text, pointer to that}. For the pair: String, Unmarshal (deep), IsEqual in both directions, Traverse on ALL paths of length <= 3 over [-1,4], per-node IsNesting/Len/Kind and Condition.Len/IsNesting/IsFIFO/String, " +
 			"ConvertStack/ConvertCondition returning the underlying instance, no-nesting refusal of every alias form (Stack and Condition side), Transfer into four alias destination forms, Defrag - all must agree with the native twin. " +
 			"Every 50th case: ConvertStack/ConvertCondition on 18 non-convertible values (nil, zero aliases, typed nils, pointers to zero aliases, unrelated types) must give (zero,false). non-trivial = at least one alias below the root AND one alias as a Condition expression; distinct = aliased tree description.",
-		Assumptions: []string{"alias String methods delegate to the native rendering (as in the README), so 'the results they give for the native tree' is well defined for them"},
+		Assumptions: []string{"an alias is rendered through its native conversion whether or not it has a String method of its own, and whatever that method returns"},
 		Floors: func(string) map[string]int64 {
 			return map[string]int64{"tree-pairs": 10000, "trees.alias-below-root-and-as-condition-expression": 1500, "alias-forms-probed": 5000, "convert-batteries": 100, "condition-nodes": 5000}
 		},
